@@ -22,11 +22,28 @@ for n in names:
     for b in commits:
         sh("git", "checkout", "-q", "-f", b, cwd=R); sh("git", "clean", "-fdq", cwd=R)
         if sh("git", "apply", "--check", p, cwd=R).returncode == 0:
-            base = b; break
+            # ... and builds there (a patch can apply to a commit it was not written for)
+            sh("git", "apply", p, cwd=R)
+            okb = sh("go", "build", "./...", cwd=R).returncode == 0
+            sh("git", "checkout", "-q", "-f", b, cwd=R); sh("git", "clean", "-fdq", cwd=R)
+            if okb:
+                base = b; break
     plan.append((n, base))
 sh("rm", "-rf", R)
 def pairs(out):
-    return set(l for l in out.splitlines() if "|" in l and not l.startswith("BASEBOX"))
+    # alarm classes: the assertion text; for panics the message without the site (a rewrite
+    # renames the functions a defect of the old commit surfaces in); for races the functions
+    res = set()
+    for l in out.splitlines():
+        if "|" not in l or l.startswith("BASEBOX"): continue
+        s = l.split("|", 1)[1]
+        if s.startswith("panic:"):
+            parts = s.split(":", 2)
+            s = "panic:" + re.sub(r"v5\.\S+", "", parts[2] if len(parts) > 2 else parts[1])
+        elif s.startswith("race:"):
+            s = "race:" + "/".join(sorted(set(re.findall(r"v5\.[\w.()*]+", s))))
+        res.add(s[:100])
+    return res
 def one(nb):
     n, base = nb
     prop = n.split("-")[0]
@@ -46,6 +63,9 @@ def one(nb):
     return (n, base, "silent (no alarm the base does not raise itself; base raises %d)" % len(pairs(wo)) if not new else "ALARM", new[:5])
 with ThreadPoolExecutor(int(os.environ.get("JOBS", "4"))) as ex:
     rows = list(ex.map(one, plan))
+if sys.argv[1:]:
+    for r in rows: print(*r)
+    sys.exit(0)
 with open("benign/RESULTS.md", "w") as f:
     f.write(f"# Property-preserving corpus against the checks (repo HEAD {head})\n\n| change | run on | verdict | alarms charged to the change |\n|---|---|---|---|\n")
     for n, b, v, extra in rows:
